@@ -205,13 +205,61 @@ func H_C09_shape(hh, via, shape, w int) {
 		x.lit("<")
 		us, ue = x.sym(2, 0)
 		x.lit(">")
+	case 9: // quoted display name with an escaped quote / backslash and a fold inside
+		ns = len(x.b)
+		x.lit("\"a\\")
+		e := vByte()
+		vAssume(e != '\r' && e != '\n')
+		x.b = append(x.b, e)
+		x.lws()
+		x.sym(w, 2)
+		x.lit("\"")
+		ne = len(x.b)
+		x.lws()
+		x.lit("<")
+		us, ue = x.sym(1, 0)
+		x.lit(">")
+	case 10: // bare URI, whitespace before the parameters, several parameters
+		us, ue = x.sym(w, 0)
+		x.lws()
+		x.lit(";")
+		x.lws()
+		ps = len(x.b)
+		x.sym(1, 1)
+		x.lws()
+		x.lit(";")
+		x.ci("tag")
+		x.lws()
+		x.lit("=")
+		x.lws()
+		ts, te = x.sym(1, 1)
+		x.lit(";")
+		x.ci("lr")
+		pe = len(x.b)
+		hasTag, lr = true, true
+	case 11: // expires first, then tag, then a valueless parameter at the end
+		x.lit("<")
+		us, ue = x.sym(1, 0)
+		x.lit(">;")
+		ps = len(x.b)
+		x.ci("expires")
+		x.lit("=")
+		ds, de = x.sym(w, 3)
+		x.lws()
+		x.lit(";")
+		x.ci("tag")
+		x.lit("=")
+		ts, te = x.sym(1, 1)
+		x.lit(";x")
+		pe = len(x.b)
+		hasExp, hasTag = true, true
 	}
 	vend := len(x.b)
 	if pe > 0 {
 		vend = pe
 	} else if ue > 0 {
 		vend = ue
-		if shape != 3 && shape != 6 {
+		if shape != 3 && shape != 6 && shape != 10 {
 			vend = ue + 1 // closing '>'
 		}
 	}
@@ -350,7 +398,37 @@ func H_C09_hdrs(w int) {
 	vAssert("header-count", pv.Contacts.HNo == 2)
 	m12 := vIte(e1 < e2, int(e2), int(e1))
 	vAssert("contacts-max-expires", int(pv.Contacts.MaxExpires) == m12)
+	// the value <b> has no expires parameter: it counts as 0 for the minimum
+	vAssert("contacts-min-expires-over-all-headers", pv.Contacts.MinExpires == 0)
 	mx, ok := pv.MaxExpires()
 	vAssert("summary-max-expires", vAnd(ok, int(mx) == vIte(uint64(m12) < e3, int(e3), m12)))
+	vReach("end")
+}
+
+// H_C09_minmax: two Contact headers, one value each, both with expires:
+// minimum and maximum summarise all values of all headers.
+func H_C09_minmax(w int) {
+	var x nb
+	x.lit("m:<a>;expires=")
+	d1s, d1e := x.sym(w, 3)
+	x.lit("\r\nContact: <b>;expires=")
+	d2s, d2e := x.sym(w, 3)
+	x.lit("\r\n\r\n")
+	var hl HdrLst
+	var hb [4]Hdr
+	hl.Hdrs = hb[:]
+	var pv PHdrVals
+	var cb [2]PFromBody
+	pv.Init(cb[:vChoice(3)])
+	o, e := ParseHeaders(x.b, 0, &hl, &pv)
+	vAssert("accepted", e == 0 && o == len(x.b))
+	if e != 0 {
+		return
+	}
+	e1, _ := refDec(x.b[d1s:d1e], refU32Max)
+	e2, _ := refDec(x.b[d2s:d2e], refU32Max)
+	vAssert("value-and-header-count", pv.Contacts.N == 2 && pv.Contacts.HNo == 2)
+	vAssert("max-expires", uint64(pv.Contacts.MaxExpires) == uint64(vIte(e1 < e2, int(e2), int(e1))))
+	vAssert("min-expires", uint64(pv.Contacts.MinExpires) == uint64(vIte(e1 < e2, int(e1), int(e2))))
 	vReach("end")
 }
